@@ -23,7 +23,7 @@ from ..observe import canon, feq
 
 ID = 'C08'
 LEVEL = 'exploration'
-RUNS = {'quick': 1200, 'thorough': 30000}
+RUNS = {'quick': 1200, 'thorough': 150000}
 WALL = {'quick': 150, 'thorough': 2400}
 RULE = ("per seed one experiment: (de) DE/DE2 with one of the ten strategies, CR in {0,.3,.5,.9,1}, F, npop 4..8, dim 1..5 on quantised/"
         "smooth costs, all draws of mystic.strategy recorded and partly scripted to legal extremes, trial vectors recomputed from the draws, "
